@@ -285,9 +285,14 @@ func (o *Opts) Matrix() *Node {
 		n := min + t.Draw(4, "matrix:nvals")
 		s := &Node{Kind: KSeq, Seq: []*Node{}}
 		for i := 0; i < n; i++ {
-			if t.Draw(10, "matrix:emptyval") == 9 {
+			switch t.Draw(20, "matrix:emptyval") {
+			case 18, 19:
 				// the empty string is a legal matrix value
 				s.Seq = append(s.Seq, Str(""))
+				continue
+			case 17:
+				// so is a null item (it reads as the empty string)
+				s.Seq = append(s.Seq, Null())
 				continue
 			}
 			s.Seq = append(s.Seq, o.scalarish(pos))
